@@ -238,6 +238,16 @@ impl Property for RefProp {
             // a case of the cell-typing part (matrix / near misses under the monitor)
             return crate::props::soundness::C13_CELLS.check_case(case, stats);
         }
+        if case["kind"].as_str() == Some("type-test") {
+            // run-time type tests (if-set, type arms, while-set, type filter) on values of compound types
+            // whose components overlap partly with the tested type: decided by the value's run-time type
+            let mut c = case.clone();
+            c["kind"] = json!("membership");
+            return match crate::props::c10::check_membership(&c, stats) {
+                Verdict::Fail(f) => fail(format!("C12:type-test:{}", f.sig.rsplit(':').next().unwrap_or("form")), f.msg),
+                v => v,
+            };
+        }
         if case["kind"].as_str() == Some("coverage") {
             return check_coverage(case, stats);
         }
@@ -1134,6 +1144,19 @@ pub fn run(session: &Session, prop: &'static RefProp, rule: &str) -> i32 {
                 }
             }
         }
+    }
+    if prop.id == "C12" && !session.stopped() {
+        let overlapping = |t: &str| t.contains("int|string") || t.contains("int|float");
+        let cases: Vec<Json> = crate::props::c10::membership_cases()
+            .into_iter()
+            .filter(|c| overlapping(c["s"].as_str().unwrap_or("")) && overlapping(c["t"].as_str().unwrap_or("")))
+            .map(|mut c| {
+                c["kind"] = json!("type-test");
+                c
+            })
+            .collect();
+        session.set_extra("partial_overlap_type_test_cases", json!(cases.len()));
+        session.run_enum(prop, cases);
     }
     if prop.id == "C12" && !session.stopped() {
         // every loop shape run for n rounds with `continue` (or `break`) taken in exactly the rounds of a
